@@ -96,25 +96,28 @@ UNITS = {
     },
     "server": {
         "uses": [],
-        "preludes": ["shims/core.rs", "shims/bytes.rs", "shims/env.rs", "shims/io.rs"],
-        "specs": ["contracts/spec/hv.rs", "contracts/spec/http.rs", "contracts/spec/lookup.rs", "contracts/spec/cors.rs", "contracts/spec/headers.rs", "contracts/spec/server.rs"],
+        "preludes": ["shims/core.rs", "shims/bytes.rs", "shims/env.rs", "shims/io.rs", "shims/cursor.rs"],
+        "specs": ["contracts/spec/hv.rs", "contracts/spec/request.rs", "contracts/spec/http.rs", "contracts/spec/lookup.rs", "contracts/spec/cors.rs", "contracts/spec/headers.rs", "contracts/spec/frames.rs", "contracts/spec/app.rs", "contracts/spec/server.rs"],
         "sources": [
             SYMBOL_SRC,
             ("src/http/mod.rs", ["struct:Version", "const:VERSION"]),
             ("src/mime_type/mod.rs", ["struct:MimeType", "consts:MimeType"]),
             ("src/range/mod.rs", ["struct:Range", "struct:ContentRange", "consts:Range"]),
-            ("src/request/mod.rs", ["struct:Request", "struct:Method", "const:METHOD", "fn:Request::parse:assume"]),
+            ("src/request/mod.rs", ["struct:Request", "struct:Method", "const:METHOD", "fn:Request::parse:assume", "fn:Request::parse_request:assume"]),
             ("src/entry_point/mod.rs", ["struct:Config", "consts:Config"]),
             ("src/cors/mod.rs", ["struct:Cors", "consts:Cors"]),
             ("src/client_hint/mod.rs", ["struct:ClientHint", "consts:ClientHint"]),
             ("src/header/mod.rs", ["struct:Header", "consts:Header", "fn:Header::get_header_list:assume"]),
             ("src/response/mod.rs", ["struct:Response", "struct:StatusCodeReasonPhrase", "struct:ResponseStatusCodeReasonPhrase",
-                                     "const:STATUS_CODE_REASON_PHRASE", "fn:Response::get_response", "fn:Response::generate_response:assume"]),
+                                     "const:STATUS_CODE_REASON_PHRASE", "struct:Error", "fn:Response::get_response", "fn:Response::generate_response:assume"]),
             ("src/application/mod.rs", ["trait:Application"]),
             ("src/log/mod.rs", ["struct:Log", "fn:Log::request_response:assume"]),
-            ("src/server/mod.rs", ["struct:Server", "struct:ConnectionInfo", "struct:Address", "fn:Server::bad_request_response", "fn:Server::process"]),
+            ("src/entry_point/mod.rs", ["fn:get_request_allocation_size:assume"]),
+            ("src/app/mod.rs", ["struct:App", "fn:App::handle_request:assume"]),
+            ("src/server/mod.rs", ["struct:Server", "struct:ConnectionInfo", "struct:Address", "fn:Server::bad_request_response", "fn:Server::process",
+                                   "fn:Server::process_request"]),
         ],
-        "contracts": ["contracts/request.vc", "contracts/header.vc", "contracts/response.vc", "contracts/server.vc"],
+        "contracts": ["contracts/request.vc", "contracts/header.vc", "contracts/response.vc", "contracts/app.vc", "contracts/server.vc"],
     },
     "request_parse": {
         "preludes": ["shims/core.rs", "shims/bytes.rs", "shims/io.rs", "shims/cursor.rs"],
@@ -213,6 +216,19 @@ UNITS = {
         ],
         "contracts": ["contracts/mime.vc", "contracts/app.vc", "contracts/static.vc"],
     },
+    "log": {
+        "preludes": ["shims/core.rs", "shims/io.rs", "shims/thread.rs"],
+        "specs": [],
+        "sources": [
+            SYMBOL_SRC,
+            ("src/header/mod.rs", ["struct:Header", "consts:Header"]),
+            ("src/range/mod.rs", ["struct:Range", "struct:ContentRange"]),
+            ("src/request/mod.rs", ["struct:Request"]),
+            ("src/response/mod.rs", ["struct:Response"]),
+            ("src/log/mod.rs", ["struct:Log", "fn:Log::request_response"]),
+        ],
+        "contracts": ["contracts/log.vc"],
+    },
 }
 for k, v in UNITS.items():
     v["name"] = k
@@ -298,7 +314,7 @@ PROPS = {
         "assumptions": ["the serialise-then-parse round trip itself is NOT proved (the two halves are proved against their specifications separately)"],
     },
     "C04": {
-        "units": ["server", "request_parse", "range_parse", "static", "app", "controllers"],
+        "units": ["server", "request_parse", "range_parse", "static", "app", "controllers", "log"],
         "level": "proof",
         "falsifier": ["e2e"],
         "case_prefixes": ["c04_"],
